@@ -1246,11 +1246,30 @@ pub fn stream_body() -> Box<dyn PrepareCall> {
                 #[cfg(not(feature = "uring"))]
                 let file_len = meta.len();
 
+                // the same treatment of a range as for a body in memory: clamp the end, 416 when it
+                // starts behind the last byte, 206 with `content-range` otherwise
                 let end = if let Some((_, end)) = range {
-                    end
+                    end.min(file_len)
                 } else {
                     file_len
                 };
+                if range.is_some() {
+                    if start >= file_len {
+                        return default_error_response(
+                            StatusCode::RANGE_NOT_SATISFIABLE,
+                            host,
+                            None,
+                        )
+                        .await;
+                    }
+                    *response.status_mut() = StatusCode::PARTIAL_CONTENT;
+                    let content_range = format!("bytes {start}-{}/{file_len}", end - 1);
+                    response.headers_mut().insert(
+                        "content-range",
+                        // digits, `-` and `/` are valid in a header value
+                        HeaderValue::from_str(&content_range).unwrap(),
+                    );
+                }
                 let len = end - start;
 
                 #[cfg(not(feature = "uring"))]
